@@ -42,7 +42,7 @@ func init() {
 		Rule: "cases: N in {4,16,64} goroutines (more goroutines than Ps, so pool slots and struct-info caches are shared) each running a seeded sequence of calls drawn from the package-level parse/validate/tokenize/write/marshal/pretty functions of oj and sen, " +
 			"alt.Decompose/Generify/Dup, shared jp.Expr/Filter/Script values doing Get/First/Has/Locate/Walk/Set/Del/Modify/Remove on goroutine-private data, struct encoding of reflect.StructOf types first seen during the run, and Recompose/Unmarshal into types registered in a warm-up phase. " +
 			"The same workload runs (a) under the race detector (race children; every report with an ojg frame is a violation, de-duplicated by the pair of innermost ojg frames) and (b) at full speed; in both, every call's result is compared with a table computed sequentially beforehand and every returned buffer is digested at return and again after yielding. " +
-			"non-trivial: every (goroutine, call) execution that ran concurrently with at least one other goroutine; distinct: (operation, input index) pairs and observed pool hand-off fingerprints are counted",
+			"buffers returned to a caller are kept and re-inspected after later calls of the same goroutine and at the end of the run; one Marshal op produces outputs beyond the pooled writers' initial capacity. non-trivial: every (goroutine, call) execution that ran concurrently with at least one other goroutine; distinct: (operation, input index) pairs and observed pool hand-off fingerprints are counted",
 		Assumptions: []string{
 			"the race build is made with -gcflags=all=-d=checkptr=0 (checkptr aborts on ojg's struct-field pointer arithmetic for every struct and would mask everything else)",
 			"types are registered with the recomposer in a warm-up phase, as the statement says; configuration functions (RegisterUnaryFunction, asm.Define, option variables) are not run concurrently",
@@ -301,6 +301,13 @@ func ops() []op {
 			w.stable("oj.Marshal", b, i)
 			w.c.Cover("op:oj.Marshal")
 			return fmt.Sprint(len(b), err)
+		}},
+		{"oj.Marshal(large)", func(w *worker, i int) string {
+			// an output beyond the initial capacity of the pooled writers (1024): the writer's buffer has
+			// been re-allocated by the time it is copied out
+			b, err := oj.Marshal([]any{strings.Repeat("m", 1100+i*17), int64(i), []any{"x", nil, 1.5, int64(-i)}})
+			w.stable("oj.Marshal(large)", b, i)
+			return fmt.Sprint(len(b), digest(b), err)
 		}},
 		{"oj.Marshal(opts)", func(w *worker, i int) string {
 			b, err := oj.Marshal(parsed(i), sorted)
